@@ -123,11 +123,13 @@ func (fr *Frame) exec(ins ssa.Instruction) bool {
 		c := b.Resize(cp.t, 64, isSigned(cp.typ))
 		fr.safety("make-len", n.Pos(), b.And(b.BVCmp("bvsge", l, b.BV(0, 64)), b.BVCmp("bvsle", l, c), b.BVCmp("bvslt", c, b.BV(1<<62, 64))))
 		fr.cx.newN++
+		fr.cx.dynAlloc = true
 		base := b.NewObj(fr.cx.newN)
 		el := n.Type().Underlying().(*types.Slice).Elem()
 		fr.needZeroAxioms(el)
 		fr.vals[n] = Val{t: b.Name(n.Name(), w.mkSlice(base, b.BV(0, 64), l, c)), typ: n.Type()}
 	case *ssa.MakeMap:
+		fr.cx.dynAlloc = true
 		fr.cx.newN++
 		loc := b.NewObj(fr.cx.newN)
 		mt := n.Type().Underlying().(*types.Map)
@@ -178,7 +180,13 @@ func (fr *Frame) exec(ins ssa.Instruction) bool {
 		ks := w.sortOf(mt.Key())
 		vh := w.heapName(SArray(ks, SBool))
 		fr.st.set(vh, b.Name(vh, b.Store(fr.st.heap(fr.cx, vh), vloc, b.ConstArray(SArray(ks, SBool), b.False()))))
-		it := &MapIter{m: x, mt: mt, vis: vloc, visHeap: vh}
+		fr.cx.newN++
+		cloc := b.NewObj(fr.cx.newN)
+		ch := w.heapName(SBV(64))
+		fr.st.set(ch, b.Name(ch, b.Store(fr.st.heap(fr.cx, ch), cloc, b.BV(0, 64))))
+		_, _, lnH0 := w.mapHeapNames(mt)
+		len0 := b.Name("rangelen", b.Ite(b.IsNil(x.t), b.BV(0, 64), b.Select(fr.st.heap(fr.cx, lnH0), x.t)))
+		it := &MapIter{m: x, mt: mt, vis: vloc, visHeap: vh, cnt: cloc, len0: len0}
 		fr.ranges = append(fr.ranges, it)
 		fr.rangeOf = append(fr.rangeOf, n)
 		fr.vals[n] = Val{typ: n.Type(), iter: it}
@@ -644,6 +652,17 @@ func (fr *Frame) next(n *ssa.Next) {
 		}
 		nv := b.Ite(ok, b.Store(vis, k, b.True()), vis)
 		fr.st.set(it.visHeap, b.Name(it.visHeap, b.Store(vh, it.vis, nv)))
+		if it.cnt != nil {
+			ch := w.heapName(SBV(64))
+			h := fr.st.heap(fr.cx, ch)
+			c := b.Select(h, it.cnt)
+			if !rangeBodyInserts(n) {
+				// without insertions an iteration produces at most as many keys as the map held at its start
+				fr.assume(b.Implies(ok, b.BVCmp("bvslt", c, it.len0)))
+			}
+			fr.assume(b.And(b.BVCmp("bvsge", c, b.BV(0, 64)), b.BVCmp("bvslt", c, b.BV(1<<62, 64))))
+			fr.st.set(ch, b.Name(ch, b.Store(h, it.cnt, b.Ite(ok, b.BVOp("bvadd", c, b.BV(1, 64)), c))))
+		}
 	}
 	// an empty or nil map yields nothing
 	fr.assume(b.Implies(b.Or(b.Not(notNil), b.Eq(ml, b.BV(0, 64))), b.Not(ok)))
